@@ -24,7 +24,7 @@ RULE = ("cases: trees with critical raising jobs at every position relative to t
         "not yet started; distinct = distinct scenario digest")
 ASSUMPTIONS = RT_ASSUMPTIONS
 
-PROFILE = S.GENERAL.but(p_raise=30, p_critical=55, p_sched_critical=55, p_nested=24,
+PROFILE = S.GENERAL.but(p_rerun=8, p_raise=30, p_critical=55, p_sched_critical=55, p_nested=24,
                         p_edge=30, p_forever=10, p_wild=15,
                         timeouts=((None, 14), (2.5, 1), (4, 1), (4.5, 1), (6, 1), (8, 1)),
                         windows=((None, 5), (0, 1), (1, 2), (2, 3), (3, 2)))
